@@ -36,28 +36,27 @@ def checkpoint (w : World) : World × Snap :=
 def commit (w : World) : World :=
   { w with js := { w.js with depth := Journal.decU64 w.js.depth } }
 
-/-- the state map after a failed subroutine: every account as it was saved; an address that the subroutine loaded for
-the first time (`w.addrs` lists the addresses of the map) stays in the map as an untouched, unaccessed placeholder (no
-observable content); from Spurious Dragon on a touched 0x03 stays touched (the mainnet RIPEMD-160 precedent).
-`acc3` is the entry of address 0x03, computed once per revert. -/
-def restoredState (w : World) (saved : Journal.JState) (acc3 : Option Journal.Acct) (a : Nat) : Option Journal.Acct :=
-  if a = Journal.PRECOMPILE3 then acc3
-  else match saved.state a with
-    | some x => some x
-    | none => if w.addrs.contains a then some (pristine w a) else none
+/-- an entry of the state map after a failed subroutine: the account as it was saved; an address that the subroutine
+loaded for the first time (`w.addrs` lists the addresses of the map) stays in the map as an untouched, unaccessed
+placeholder (no observable content) -/
+def restoredBase (w : World) (saved : Journal.JState) (a : Nat) : Option Journal.Acct :=
+  match saved.state a with
+  | some x => some x
+  | none => if w.addrs.contains a then some (pristine w a) else none
 
-/-- the entry of address 0x03 after a failed subroutine -/
+/-- the entry of address 0x03 after a failed subroutine: as every other address, except that from Spurious Dragon on
+its touched mark is not rolled back (the mainnet RIPEMD-160 precedent, DESIGN §8) -/
 def restored3 (w : World) (saved : Journal.JState) : Option Journal.Acct :=
-  let cur3 := w.js.state Journal.PRECOMPILE3
-  let keep : Bool := decide (w.js.spec ≥ Journal.SPURIOUS_DRAGON) &&
-    (match cur3 with
-     | some cur => cur.touched
-     | none => false)
-  let base : Option Journal.Acct :=
-    match saved.state Journal.PRECOMPILE3 with
-    | some x => some x
-    | none => if cur3.isSome then some (pristine w Journal.PRECOMPILE3) else none
-  if keep then base.map fun x => { x with touched := true } else base
+  match w.js.state Journal.PRECOMPILE3 with
+  | some cur =>
+    if decide (w.js.spec ≥ Journal.SPURIOUS_DRAGON) then
+      (restoredBase w saved Journal.PRECOMPILE3).map fun x => { x with touched := cur.touched }
+    else restoredBase w saved Journal.PRECOMPILE3
+  | none => restoredBase w saved Journal.PRECOMPILE3
+
+/-- the state map after a failed subroutine; `acc3` is the entry of address 0x03, computed once per revert -/
+def restoredState (w : World) (saved : Journal.JState) (acc3 : Option Journal.Acct) (a : Nat) : Option Journal.Acct :=
+  if a = Journal.PRECOMPILE3 then acc3 else restoredBase w saved a
 
 /-- failed subroutine: the saved state comes back -/
 def revert (w : World) (c : Snap) : R World :=
